@@ -12,6 +12,8 @@ Kinds:
 from __future__ import annotations
 
 import copy
+import os
+import re
 
 from vf.gen import hits as H
 from vf.gen import worlds as W
@@ -114,6 +116,21 @@ def tie_layout(rng):
             "perm_seed": rng.randrange(1 << 30)}
 
 
+_SHIPPED: dict = {}
+
+
+def shipped_rules() -> dict:
+    """ {strictness file: [(rule name, category)]} read from the rule files of the tree under test """
+    if not _SHIPPED:
+        repo = os.environ.get("VERIF_REPO", "/repo")
+        for level in ("strict", "relaxed", "loose"):
+            path = os.path.join(repo, "antismash", "detection", "hmm_detection", "cluster_rules", level + ".txt")
+            with open(path, encoding="utf-8") as handle:
+                text = handle.read()
+            _SHIPPED[level] = re.findall(r"^RULE\s+(\S+)\s+CATEGORY\s+(\S+)", text, re.M)
+    return _SHIPPED
+
+
 def gen_input(rng, kind):
     if kind == "refine":
         case = H.refine_case(rng)
@@ -130,6 +147,16 @@ def gen_input(rng, kind):
                     hsps[b][3] = hsps[a][2] + max(1, width)
                     if rng.random() < 0.5:
                         hsps[b][4], hsps[b][5] = hsps[a][4], hsps[a][5]
+        # twins: another profile over exactly the same span with the same score and e-value (profiles for subtypes
+        # of one domain do that): only the profile name is left to decide which of the two is kept
+        if rng.random() < 0.4 and len(case["lengths"]) >= 2:
+            for _ in range(rng.randrange(1, 3)):
+                gene, prof, start, end, score, evalue = rng.choice(hsps)
+                others = [p for p in case["lengths"] if p != prof]
+                twin = [gene, rng.choice(others), start, end, score, evalue]
+                if twin not in hsps:
+                    hsps.append(twin)
+            case["split"] = [len(hsps)]
         return case
     if kind == "filter":
         case = H.filter_case(rng)
@@ -148,6 +175,15 @@ def gen_input(rng, kind):
         case = H.hmmer_case(rng)
         case["kind"] = "hmmer"
         return case
+    if kind == "ruleset":
+        # the real hmm_detection.get_ruleset on the shipped rule files with the options that limit the rules
+        levels = ["strict", "relaxed", "loose"]
+        strictness = rng.choice(levels)
+        available = [(name, cat) for level in levels[:levels.index(strictness) + 1] for name, cat in shipped_rules()[level]]
+        names = [name for name, _ in rng.sample(available, rng.randrange(2, 9))] if rng.random() < 0.8 else []
+        cats = sorted({cat for _, cat in rng.sample(available, rng.randrange(1, 3))}) if rng.random() < 0.4 or not names else []
+        return {"kind": "ruleset", "strictness": strictness, "names": names, "categories": cats,
+                "taxon": rng.choice(["bacteria", "bacteria", "fungi"]), "perm_seed": rng.randrange(1 << 30)}
     if kind == "world":
         return tie_world(rng)
     if kind == "layout":
@@ -167,7 +203,9 @@ def input_ties(case) -> dict:
             per_gene.setdefault(gene, []).append((prof, start, end, score))
         start_tie = any(len({h[1] for h in set(hs)}) < len(set(hs)) for hs in per_gene.values())
         full_tie = any(len({(h[1], h[3]) for h in set(hs)}) < len(set(hs)) for hs in per_gene.values())
-        return {"equal_start_hits": start_tie, "equal_start_and_score_hits": full_tie}
+        twins = any(len({(h[1], h[2], h[3]) for h in set(hs)}) < len(set(hs)) for hs in per_gene.values())
+        return {"equal_start_hits": start_tie, "equal_start_and_score_hits": full_tie,
+                "different_profiles_with_equal_span_and_score": twins}
     if kind == "filter":
         per_gene = {}
         for gene, prof, start, end, score in case["hits"]:
@@ -191,6 +229,8 @@ def input_ties(case) -> dict:
         return {"rules_with_equal_condition_and_distances": len(set(sig)) < len(sig),
                 "genes_with_several_profiles": multi, "equal_scores": len(set(scores)) < len(scores),
                 "n_rules": len(world["rules"])}
+    if kind == "ruleset":
+        return {"rules_limited_by_name": len(case["names"]) >= 2, "rules_limited_by_category": bool(case["categories"])}
     if kind == "layout":
         protos = case["protoclusters"]
         ext = [str(p["extent"]) for p in protos]
